@@ -565,3 +565,11 @@ Proof.
       destruct (find_last a (plist s)); cbn [option_map] in *; exact Hs.
     + rewrite find_last_upd_other by (try reflexivity; assumption). exact Hs.
 Qed.
+
+(* Load replaces the book by what is stored *)
+Lemma load_replaces g l1 l2 st0 : step g (mkSt l1 st0) OLoad = step g (mkSt l2 st0) OLoad.
+Proof. reflexivity. Qed.
+
+Lemma load_is_stored g l0 bs l :
+  load_bytes g bs = Ok l -> plist (fst (step g (mkSt l0 (Some bs)) OLoad)) = l.
+Proof. intros H. cbn [step store]. rewrite H. reflexivity. Qed.
